@@ -32,7 +32,7 @@ type Profile struct {
 	OCISubject     bool // OCI-Subject header on manifest PUT with a subject (only with ReferrersAPI)
 	FilterApplied  int  // referrers artifactType filter: 0 applied+header, 1 applied+annotation, 2 not applied
 	PageSize       int  // server-imposed page size for listings (0 = none)
-	LinkForm       int  // 0 absolute URL, 1 relative path, 2 relative with extra parameters and spaces
+	LinkForm       int  // 0 absolute URL, 1 relative path, 2 relative with extra parameters and spaces, 3 rel=next, 4 rel = "next", 5 REL="next", 6 another parameter before rel
 	NoGetLength    bool // GET responses carry no Content-Length (-1, chunked)
 	CatalogEnabled bool
 }
@@ -262,6 +262,12 @@ func (g *Registry) corrupt(resp *http.Response) {
 			}
 			g.Applied = k
 		}
+	case "length-zero": // a 200 answer to a GET that declares Content-Length: 0 and has no body (a truncating cache)
+		if resp.ContentLength > 0 && resp.StatusCode == 200 && resp.Request != nil && resp.Request.Method == http.MethodGet {
+			resp.Body, resp.ContentLength = http.NoBody, 0
+			resp.Header.Set("Content-Length", "0")
+			g.Applied = k
+		}
 	case "length-absent":
 		if resp.ContentLength >= 0 && resp.StatusCode < 300 {
 			resp.ContentLength = -1
@@ -410,8 +416,16 @@ func (g *Registry) link(req *http.Request, nq url.Values) string {
 		return "<" + u.String() + `>; rel="next"`
 	case 1:
 		return "<" + req.URL.Path + "?" + nq.Encode() + `>; rel="next"`
-	default:
+	case 2:
 		return "<" + req.URL.Path + "?" + nq.Encode() + `>;  rel="next"; title="more"`
+	case 3: // RFC 8288: the relation type may be a token
+		return "<" + req.URL.Path + "?" + nq.Encode() + `>; rel=next`
+	case 4: // optional white space around "="
+		return "<" + req.URL.Path + "?" + nq.Encode() + `>; rel = "next"`
+	case 5: // parameter names are case-insensitive
+		return "<" + req.URL.Path + "?" + nq.Encode() + `>; REL="next"`
+	default: // another parameter first
+		return "<" + req.URL.Path + "?" + nq.Encode() + `>; title="more"; rel="next"`
 	}
 }
 
